@@ -4,6 +4,7 @@ CONSTANTS
   Cancellers = {"k1"}
   Periodic = FALSE
   DeleteByName = FALSE
+  ClaimIgnoresCancel = FALSE
   DropOnClaim = FALSE
   MaxRuns = 1
   ScenLen = 16
